@@ -35,6 +35,9 @@ type Case struct {
 	// Answers: the path treats the host names (CNAME / MX / SRV targets) and text strings (TXT)
 	// in ANSWERS the way it treats query names: same letter-case folding, same 8-bit handling
 	Answers bool `json:"answers,omitempty"`
+	// OutageAt > 0: the queries of the five exchanges OutageAt..OutageAt+4 never reach the server
+	// (a transient outage that exhausts the retries of whichever handshake step it hits)
+	OutageAt int `json:"outage_at,omitempty"`
 }
 
 func (c Case) String() string {
@@ -44,6 +47,9 @@ func (c Case) String() string {
 	}
 	if c.Answers {
 		d += " answers-too"
+	}
+	if c.OutageAt > 0 {
+		d += fmt.Sprintf(" queries of exchanges %d..%d lost", c.OutageAt, c.OutageAt+4)
 	}
 	return fmt.Sprintf("casing=%s 8bit=%s types=%v limit=%d trunc=%v%s", c.Casing, c.EightBit, c.Types, c.Limit, c.Trunc, d)
 }
@@ -230,13 +236,18 @@ func caseDomain(c Case) string {
 
 func execute(t *testing.T, c Case) (kind, detail string, hsOK bool) {
 	res := bubble.Run(t, func() {
+		var hsOver atomic.Bool
 		allowed := map[uint16]bool{}
 		for _, n := range c.Types {
 			allowed[uint16(typeNames[n])] = true
 		}
 		path := world.DnsPath{MaxAns: c.Limit, Truncate: c.Trunc}
 		path.QueryWire = func(exch int, wire []byte) []byte { return rewriteName(c, exch, wire) }
-		path.Query = func(exch int, q *dns.Msg) bool { return true }
+		path.Query = func(exch int, q *dns.Msg) bool {
+			// the outage loses QUERIES (the server's state does not move) and belongs to the handshake:
+			// afterwards the path is the case's path
+			return !(c.OutageAt > 0 && exch >= c.OutageAt && exch < c.OutageAt+5 && !hsOver.Load())
+		}
 		w, err := world.New(world.Options{Carrier: "dns", Channels: []string{"x"}, DnsRaw: true, DnsPath: path, DnsDomain: caseDomain(c)})
 		if err != nil {
 			kind, detail = "setup", err.Error()
@@ -248,6 +259,7 @@ func execute(t *testing.T, c Case) (kind, detail string, hsOK bool) {
 				a.Answer = nil
 				a.Rcode = dns.RcodeRefused
 			}
+
 			if c.Answers {
 				return mangleAnswer(c, exch, a)
 			}
@@ -266,7 +278,7 @@ func execute(t *testing.T, c Case) (kind, detail string, hsOK bool) {
 			}
 		}
 		done := make(chan error, 1)
-		go func() { done <- cl.Handshake() }()
+		go func() { err := cl.Handshake(); hsOver.Store(true); done <- err }()
 		var hsErr error
 		finished := false
 		for m := 0; m < 60 && !finished && !runaway.Load(); m++ {
@@ -495,6 +507,19 @@ func cases(thorough bool) []Case {
 				for _, ts := range [][]string{priority, {"TXT", "SRV", "MX", "CNAME", "AAAA", "A"}, {"CNAME", "AAAA", "A"}} {
 					add(Case{Casing: cs, EightBit: eb, Types: ts, Limit: l})
 				}
+			}
+		}
+	}
+	// a transient outage at every position of the handshake (transparent and 7-bit path): the step
+	// it hits exhausts its retries and falls back; what the handshake then settles on must work
+	for _, eb := range []string{"transparent", "strip"} {
+		for at := 1; at <= 90; at++ {
+			add(Case{Casing: "none", EightBit: eb, Types: priority, OutageAt: at})
+		}
+		if thorough {
+			for at := 1; at <= 90; at++ {
+				add(Case{Casing: "none", EightBit: eb, Types: []string{"TXT", "SRV", "MX", "CNAME", "AAAA", "A"}, OutageAt: at})
+				add(Case{Casing: "none", EightBit: eb, Types: []string{"CNAME", "AAAA", "A"}, OutageAt: at})
 			}
 		}
 	}
